@@ -24,6 +24,10 @@ from fractions import Fraction
 
 from ..core import Sub, fail, isnum, jkey, lit, CANON_CODES
 
+# delivery-channel differential (core.Env): of every 2 evaluations that bind variables, one is repeated with the
+# values handed in by the cell/range listeners and one with the values returned by custom functions; outcomes must agree
+CHANNELS = 2
+
 BOUNDS = {
     'quick': 'AND/OR/XOR: every tuple of length 1..5 over {TRUE,FALSE,0,1,-2,0.0,2.5,blank} and of length 6 over '
              '{TRUE,FALSE,0,1} as separate variables; every tuple of length 1..3 regrouped into 2..9 nested-array '
